@@ -187,6 +187,12 @@ func C09(c *Ctx) {
 		}
 	}
 	// hiding: request operand of ServeHTTP arriving from the expired side
+	nHide := 0
+	defer func() {
+		if nHide == 0 {
+			r.Bad("C09.hide", name, "request on expired edge", posf(c, decide), "no request value reaches the wrapped handler from the expired branch: an expired request is not served as unauthenticated")
+		}
+	}()
 	for _, s := range serve {
 		req := Arg(s, 1)
 		var operands []ssa.Value
@@ -200,9 +206,9 @@ func C09(c *Ctx) {
 			operands = append(operands, req)
 		}
 		if len(operands) == 0 {
-			r.Bad("C09.hide", name, "request on expired edge", posf(c, s), "no request value reaches the wrapped handler from the expired branch")
-			continue
+			continue // this call site is not on the expired branch
 		}
+		nHide++
 		for _, op := range operands {
 			ci := c.ctxChain(op, 0)
 			for _, k := range []string{"pid", "user"} {
